@@ -18,5 +18,10 @@ Proof. intros T _. exact (add_tables_len T). Qed.
 Theorem c02_fixed_tables : fixed_len_statement.
 Proof. exact fixed_len. Qed.
 
+(* RQSC, FADT, SLIT, HEST histories: special_len_statement in Proofs/Registry.v *)
+Theorem c02_special_tables : special_len_statement.
+Proof. exact special_len. Qed.
+
 Print Assumptions c02_add_tables.
 Print Assumptions c02_fixed_tables.
+Print Assumptions c02_special_tables.
